@@ -1,6 +1,7 @@
-use super::{Query, ResolvedFragmentId, SelectionId};
+use super::{Query, ResolvedFragmentId, Selection, SelectionId};
 use crate::schema::TypeId;
 use heck::*;
+use std::collections::BTreeSet;
 
 #[derive(Debug)]
 pub(crate) struct ResolvedFragment {
@@ -15,10 +16,42 @@ impl ResolvedFragment {
     }
 }
 
+/// A fragment is recursive when it contains itself, directly or through other fragments.
 pub(crate) fn fragment_is_recursive(fragment_id: ResolvedFragmentId, query: &Query) -> bool {
     let fragment = query.get_fragment(fragment_id);
 
-    query
-        .walk_selection_set(&fragment.selection_set)
-        .any(|(_id, selection)| selection.contains_fragment(fragment_id, query))
+    selection_set_reaches_fragment(
+        &fragment.selection_set,
+        fragment_id,
+        query,
+        &mut BTreeSet::new(),
+    )
+}
+
+fn selection_set_reaches_fragment(
+    selection_set: &[SelectionId],
+    target: ResolvedFragmentId,
+    query: &Query,
+    visited_fragments: &mut BTreeSet<ResolvedFragmentId>,
+) -> bool {
+    selection_set
+        .iter()
+        .any(|selection_id| match query.get_selection(*selection_id) {
+            Selection::FragmentSpread(id) if *id == target => true,
+            Selection::FragmentSpread(id) => {
+                visited_fragments.insert(*id)
+                    && selection_set_reaches_fragment(
+                        &query.get_fragment(*id).selection_set,
+                        target,
+                        query,
+                        visited_fragments,
+                    )
+            }
+            selection => selection_set_reaches_fragment(
+                selection.subselection(),
+                target,
+                query,
+                visited_fragments,
+            ),
+        })
 }
